@@ -19,7 +19,7 @@ From LP Require Migrate.
 
 Definition cw2info := (String.string * String.string)%type.      (* (contract name, version) *)
 
-Definition no_slots : Migrate.slots := Migrate.mkSlots None None None None None None None.
+Definition no_slots : Migrate.slots := Migrate.mkSlots None None None None None None None None.
 
 Definition tm_migrate (is_admin : bool) (stored : cw2info) (st : tm_state) : result (tm_state * cw2info) :=
   if is_admin then
